@@ -41,8 +41,8 @@ def Decodable (rq : Request) (h : Hdrs) (opid : Bytes) : Prop :=
 def TwoWay (pm : ProcMap) (rq : Request) : Prop :=
   ∀ ms, pm.find? rq.method = some ms → ms.oneway = false
 
-/-- The table of the statement: message kind, exception type and body of THE reply. -/
-def expected (pm : ProcMap) (rq : Request) (ho : HOutcome) : MsgKind × Int × PayloadTag :=
+/-- The table of the statement for a healthy output: message kind, exception type and body of THE reply. -/
+def expectedHealthy (pm : ProcMap) (rq : Request) (ho : HOutcome) : MsgKind × Int × PayloadTag :=
   match pm.find? rq.method with
   | none => (.exception, exUnknownMethod, .appEx)
   | some ms =>
@@ -53,13 +53,24 @@ def expected (pm : ProcMap) (rq : Request) (ho : HOutcome) : MsgKind × Int × P
     | .appEx t => (.exception, t, .appEx)
     | .other => (.exception, exInternalError, .appEx)
 
+/-- … and on a bounded output buffer that a REPLY does not fit: RESPONSE_TOO_LARGE instead. -/
+def expected (pm : ProcMap) (rq : Request) (ho : HOutcome) : MsgKind × Int × PayloadTag :=
+  if rq.out = .tooSmall ∧ (expectedHealthy pm rq ho).1 = .reply then (.exception, exResponseTooLarge, .appEx)
+  else expectedHealthy pm rq ho
+
+/-- The output can carry an answer: the peer is there, and the message fits — a REPLY that
+does not fit a bounded buffer is replaced by the (small) RESPONSE_TOO_LARGE exception, but the
+UNKNOWN_METHOD message echoes the method name and has no smaller substitute. -/
+def Answerable (pm : ProcMap) (rq : Request) : Prop :=
+  rq.out = .healthy ∨ (rq.out = .tooSmall ∧ pm.find? rq.method ≠ none)
+
 /-- Every two-way request with decodable headers — known or unknown method, readable or
 unreadable, skippable or unskippable arguments, every handler outcome — gets exactly one
 message; it carries the request's op id (and correlation id), the request's method name, and
 kind / exception type / body are those of the table. `Process` returns nil (the server loop
 goes on to the next request). -/
 theorem c14_exactly_one_reply (pm : ProcMap) (rq : Request) (ho : HOutcome) (h : Hdrs) (opid : Bytes)
-    (hd : Decodable rq h opid) (h2 : TwoWay pm rq) :
+    (hd : Decodable rq h opid) (h2 : TwoWay pm rq) (hout : Answerable pm rq) :
     ∃ r, (process pm rq ho).1 = [r] ∧ (process pm rq ho).2 = .ok () ∧
       r.opId = opid ∧ r.hdrs.get? opIdHeader = some opid ∧ r.hdrs = respHdrs h opid ∧
       r.method = rq.method ∧ r.seqid = 0 ∧
@@ -67,21 +78,63 @@ theorem c14_exactly_one_reply (pm : ProcMap) (rq : Request) (ho : HOutcome) (h :
   obtain ⟨hh, ho', he⟩ := hd
   have hget : ∀ (o : Bytes), (respHdrs h o).get? opIdHeader = some o := by
     intro o; simp [respHdrs, Hdrs.get?]
-  unfold process expected
+  unfold process expected expectedHealthy
   simp only [hh, ho', he]
   cases hf : pm.find? rq.method with
-  | none => simp [mkException, hget]
+  | none =>
+    have : rq.out = .healthy := by
+      rcases hout with h1 | ⟨_, h1⟩
+      · exact h1
+      · exact absurd hf h1
+    simp [this, mkException, hget]
   | some ms =>
     have hw := h2 ms hf
+    have hcases : rq.out = .healthy ∨ rq.out = .tooSmall := by
+      rcases hout with h1 | ⟨h1, _⟩
+      · exact Or.inl h1
+      · exact Or.inr h1
     cases hr : rq.args.readable with
-    | false => simp [mkException, hget]
+    | false => rcases hcases with hc | hc <;> simp [hc, mkException, hget]
     | true =>
       cases ho with
-      | success v => simp [methodReply, hw, mkReply, hget]
+      | success v => rcases hcases with hc | hc <;> simp [hc, methodReply, hw, mkReply, mkException, hget]
       | declared f =>
-        by_cases hm : f ∈ ms.throws <;> simp [methodReply, hw, hm, mkReply, mkException, hget]
-      | appEx t => simp [methodReply, mkException, hget]
-      | other => simp [methodReply, mkException, hget]
+        by_cases hm : f ∈ ms.throws <;> rcases hcases with hc | hc <;>
+          simp [hc, methodReply, hw, hm, mkReply, mkException, hget]
+      | appEx t => rcases hcases with hc | hc <;> simp [hc, methodReply, mkException, hget]
+      | other => rcases hcases with hc | hc <;> simp [hc, methodReply, mkException, hget]
+
+/-- Oversized reply on a bounded output buffer, spelled out: the caller of a known two-way
+method whose REPLY (return value or declared exception) does not fit gets exactly one message,
+the RESPONSE_TOO_LARGE exception with its op id — not the REPLY, and nothing besides. -/
+theorem c14_too_large_one_exception (pm : ProcMap) (rq : Request) (ho : HOutcome) (ms : MethodSpec) (h : Hdrs) (opid : Bytes)
+    (hd : Decodable rq h opid) (hf : pm.find? rq.method = some ms) (hw : ms.oneway = false)
+    (hr : rq.args.readable = true) (hout : rq.out = .tooSmall)
+    (hrep : (∃ v, ho = .success v) ∨ (∃ f, ho = .declared f ∧ f ∈ ms.throws)) :
+    process pm rq ho = ([mkException h opid rq.method exResponseTooLarge], .ok ()) := by
+  obtain ⟨hh, ho', he⟩ := hd
+  rcases hrep with ⟨v, rfl⟩ | ⟨f, rfl, hm⟩ <;>
+    simp [process, methodReply, mkReply, *]
+
+/-- A peer that is gone (a write or the flush of the reply fails) gets nothing, and the error
+does not leave `Process` for a known method; for an unknown method it is returned. -/
+theorem c14_dead_peer (pm : ProcMap) (rq : Request) (ho : HOutcome) (hout : rq.out = .fails) :
+    (process pm rq ho).1 = [] := by
+  unfold process
+  cases rq.hdr with
+  | err e => rfl
+  | panic p => rfl
+  | ok h =>
+    simp only []
+    cases h.get? opIdHeader with
+    | none => rfl
+    | some opid =>
+      simp only []
+      cases rq.envOk with
+      | false => rfl
+      | true =>
+        simp only [hout]
+        cases pm.find? rq.method <;> rfl
 
 /-- The correlation id travels back: the reply has a `_cid` header exactly when the request had
 a non-empty one, with that value. -/
@@ -124,7 +177,7 @@ theorem c14_oneway_no_reply (pm : ProcMap) (rq : Request) (ms : MethodSpec) (v :
     (hr : rq.args.readable = true) :
     process pm rq (.success v) = ([], .ok ()) := by
   obtain ⟨hh, ho', he⟩ := hd
-  simp [process, hh, ho', he, hf, hr, methodReply, hw]
+  cases hout : rq.out <;> simp [process, hh, ho', he, hf, hr, methodReply, hw, hout]
 
 /-- For every handler outcome a oneway request produces at most one message, and if one, an
 EXCEPTION carrying the request's op id. -/
@@ -136,8 +189,8 @@ theorem c14_oneway_at_most_one (pm : ProcMap) (rq : Request) (ho : HOutcome) (ms
   unfold process
   simp only [hh, ho', he, hf]
   cases hr : rq.args.readable with
-  | false => simp [mkException]
-  | true => cases ho <;> simp [methodReply, hw, mkException]
+  | false => cases hout : rq.out <;> simp [mkException]
+  | true => cases ho <;> cases hout : rq.out <;> simp [methodReply, hw, mkException]
 
 /-- "A oneway request is never answered" is FALSE of the emitted code: when the handler of a
 oneway method fails, `SendError` writes an EXCEPTION message (generator.go, the oneway variant
@@ -146,7 +199,7 @@ theorem c14_oneway_no_reply_counterexample :
     ∃ (pm : ProcMap) (rq : Request) (ms : MethodSpec) (h : Hdrs) (opid : Bytes),
       Decodable rq h opid ∧ pm.find? rq.method = some ms ∧ ms.oneway = true ∧ rq.args.readable = true ∧
       (process pm rq .other).1.length = 1 :=
-  ⟨[([102], ⟨true, []⟩)], ⟨.ok [(opIdHeader, [49])], true, [102], 4, 0, ⟨true, true⟩⟩, ⟨true, []⟩,
+  ⟨[([102], ⟨true, []⟩)], ⟨.ok [(opIdHeader, [49])], true, [102], 4, 0, ⟨true, true⟩, .healthy⟩, ⟨true, []⟩,
     [(opIdHeader, [49])], [49],
     ⟨rfl, by simp [Hdrs.get?], rfl⟩, by simp [ProcMap.find?], rfl, rfl,
     by simp [process, Hdrs.get?, ProcMap.find?, methodReply]⟩
@@ -170,19 +223,19 @@ theorem c14_isolation_histories (pm : ProcMap) (pre₁ pre₂ post₁ post₂ : 
 requests on the same connection", part 1: such a request — decodable, and either an unknown
 method whose arguments `Skip` consumes, or a known method whose arguments `Read` consumes —
 leaves the connection's input exactly at the next request and lets the server loop go on,
-WHATEVER its handler does (success, declared exception, application exception, any error). -/
+WHATEVER its handler does and (known method) whatever becomes of its reply on the output (success, declared exception, application exception, any error). -/
 theorem c14_failures_keep_position (pm : ProcMap) (rq : Request) (ho : HOutcome) (h : Hdrs) (opid : Bytes)
     (hd : Decodable rq h opid)
     (ha : match pm.find? rq.method with
-          | none => rq.args.skippable = true
+          | none => rq.args.skippable = true ∧ rq.out = .healthy
           | some _ => rq.args.readable = true) :
     positionKept pm rq = true ∧ (process pm rq ho).2 = .ok () := by
   obtain ⟨hh, ho', he⟩ := hd
   unfold positionKept process
   simp only [hh, ho', he]
   cases hf : pm.find? rq.method with
-  | none => rw [hf] at ha; simp [ha]
-  | some ms => rw [hf] at ha; simp [ha]
+  | none => rw [hf] at ha; simp [ha.1, ha.2]
+  | some ms => rw [hf] at ha; cases hout : rq.out <;> simp [ha]
 
 /-- Part 2, on ONE connection (`processConn` = the server's per-connection loop): if every
 earlier request on the connection was consumed exactly and handled without a transport-level
@@ -207,7 +260,7 @@ connection gets exactly the answer it would have got alone. -/
 theorem c14_isolation_same_connection (pm : ProcMap) (pre post : List (Request × HOutcome)) (r : Request × HOutcome)
     (hpre : ∀ q ∈ pre, ∃ h opid, Decodable q.1 h opid ∧
       (match pm.find? q.1.method with
-       | none => q.1.args.skippable = true
+       | none => q.1.args.skippable = true ∧ q.1.out = .healthy
        | some _ => q.1.args.readable = true)) :
     (processConn pm (pre ++ r :: post))[pre.length]? = some (process pm r.1 r.2) ∧
     (processConn pm [r])[0]? = some (process pm r.1 r.2) := by
@@ -313,7 +366,7 @@ theorem c14_no_deadlock (n : Nat) (reply : Nat → List Bytes) (acts : List Acti
 /-- A concrete process map and requests of every kind satisfy the hypotheses. -/
 def exPm : ProcMap := ProcMap.add (ProcMap.add [] [112] ⟨false, [1]⟩) [102] ⟨true, []⟩
 def exHdrs : Hdrs := [(opIdHeader, [52, 50]), (cidHeader, [99])]
-def exReq (m : Bytes) (readable : Bool) : Request := ⟨.ok exHdrs, true, m, 1, 7, ⟨readable, readable⟩⟩
+def exReq (m : Bytes) (readable : Bool) : Request := ⟨.ok exHdrs, true, m, 1, 7, ⟨readable, readable⟩, .healthy⟩
 
 example : Decodable (exReq [112] true) exHdrs [52, 50] := ⟨rfl, by simp [exHdrs, Hdrs.get?], rfl⟩
 example : TwoWay exPm (exReq [112] true) := by
@@ -329,6 +382,13 @@ example : (process exPm (exReq [112] true) (.success [1])).1 =
 example : ((process exPm (exReq [120] false) .other).1.map fun r => (r.kind, r.exType)) = [(.exception, 1)] := by
   simp [process, exReq, exHdrs, exPm, ProcMap.add, ProcMap.find?, Hdrs.get?, mkException, exUnknownMethod,
     opIdHeader, cidHeader]
+-- the REPLY does not fit the bounded output buffer: one RESPONSE_TOO_LARGE exception
+example : ((process exPm { exReq [112] true with out := .tooSmall } (.success [1])).1.map fun r => (r.kind, r.exType, r.opId)) =
+    [(.exception, 100, [52, 50])] := by
+  simp [process, exReq, exHdrs, exPm, ProcMap.add, ProcMap.find?, Hdrs.get?, methodReply, mkReply, mkException,
+    exResponseTooLarge, opIdHeader, cidHeader]
+example : Answerable exPm { exReq [112] true with out := .tooSmall } :=
+  Or.inr ⟨rfl, by simp [exPm, exReq, ProcMap.add, ProcMap.find?]⟩
 -- declared exception vs. the same exception from a method that does not declare it
 example : ((process exPm (exReq [112] true) (.declared 1)).1.map fun r => (r.kind, r.payload)) = [(.reply, .declared 1)] := by
   simp [process, exReq, exHdrs, exPm, ProcMap.add, ProcMap.find?, Hdrs.get?, methodReply, mkReply, opIdHeader, cidHeader]
